@@ -600,6 +600,7 @@ func (x *Exec) specEqual(a, b Value) Term {
 // ---------- spec calls ----------
 
 type poisonSignal struct{}
+type indefinite struct{}
 
 func isPoison(v Value) bool { _, ok := v.(PoisonV); return ok }
 
@@ -1282,7 +1283,15 @@ func isMethodSel(sc *specCtx, f ast.Expr) bool {
 }
 
 // uniqueEvent finds the k-th (1-based; 0 = the only one) definite match.
-func (x *Exec) definiteEvents(sc *specCtx, f ast.Expr) []*Event {
+func (x *Exec) definiteEvents(sc *specCtx, f ast.Expr) (res []*Event) {
+	defer func() {
+		if r := recover(); r != nil {
+			if _, ok := r.(indefinite); ok {
+				panic(poisonSignal{}) // the query has no definite answer on this path
+			}
+			panic(r)
+		}
+	}()
 	var out []*Event
 	for _, ev := range sc.st.events[sc.evFrom:] {
 		m := x.matchEvent(sc, f, ev)
@@ -1294,7 +1303,7 @@ func (x *Exec) definiteEvents(sc *specCtx, f ast.Expr) []*Event {
 			if x.entails(sc.st, m) {
 				out = append(out, ev)
 			} else if !x.entails(sc.st, not(m)) {
-				panic(engineErr("event match for %s is not definite", exprString(f)))
+				panic(indefinite{})
 			}
 		}
 	}
